@@ -66,7 +66,11 @@ void vp_sub1()
 {
     submit(KIND1, 0);
 #if NSUB1 >= 2
+#ifdef KIND1B
+    submit(KIND1B, 1);
+#else
     submit(1 - KIND1, 1);
+#endif
 #endif
     vp_cover(0);
 }
